@@ -749,6 +749,7 @@ return 1;""",
         fmt.py_var = "value"  # Used with PY_get
         fmt.PY_array_arg = options.PY_array_arg
         fmt.c_type = arg_typemap.c_type
+        fmt.flat_name = arg_typemap.flat_name
 
         py_struct_dimension(parent, node, fmt)
         indirect_stmt = ast.get_indirect_stmt()
@@ -939,6 +940,7 @@ return 1;""",
 
 #        fmt.c_type = typemap.c_type
         fmt.cxx_type = wformat(typemap.cxx_type, fmt) # expand cxx_T
+        fmt.flat_name = typemap.flat_name  # used in the names of helpers
 
     def set_cxx_nonconst_ptr(self, ast, fmt):
         """Set fmt.cxx_nonconst_ptr.
@@ -1250,6 +1252,7 @@ return 1;""",
             fmt_arg.numpy_type = arg_typemap.PYN_typenum
             # Add formats used by py_statements
             fmt_arg.c_type = arg_typemap.c_type
+            fmt_arg.flat_name = arg_typemap.flat_name
             if arg.const:
                 fmt_arg.c_const = "const "
             else:
@@ -3900,7 +3903,7 @@ py_statements = [
 
     dict(
         name="py_native_*_result_pointer_list",
-        c_helper="to_PyList_{cxx_type}",
+        c_helper="to_PyList_{flat_name}",
         declare=[
             "PyObject *{py_var} = {nullptr};",
         ],
@@ -3970,7 +3973,7 @@ py_statements = [
 ## list
     dict(
         name="py_native_*_in_pointer_list",
-        c_helper="get_from_object_{cxx_type}_list",
+        c_helper="get_from_object_{flat_name}_list",
         parse_format="O",
         parse_args=["&{pytmp_var}"],
         arg_declare=[ # initialize
@@ -4000,8 +4003,8 @@ py_statements = [
 
     dict(
         name="py_native_*_inout_pointer_list",
-#        c_helper="update_PyList_{cxx_type}",
-        c_helper="get_from_object_{cxx_type}_list to_PyList_{cxx_type}",
+#        c_helper="update_PyList_{flat_name}",
+        c_helper="get_from_object_{flat_name}_list to_PyList_{flat_name}",
         parse_format="O",
         parse_args=["&{pytmp_var}"],
         arg_declare=[
@@ -4038,7 +4041,7 @@ py_statements = [
 
     dict(
         name="py_native_*_out_pointer_list",
-        c_helper="to_PyList_{cxx_type}",
+        c_helper="to_PyList_{flat_name}",
         c_header=["<stdlib.h>"],  # malloc/free
         cxx_header=["<cstdlib>"],  # malloc/free
         arg_declare=[
@@ -4867,12 +4870,12 @@ py_statements = [
     dict(
         name="py_ctor_native_[]",
         base="base_py_ctor_array_fill",
-        c_helper="fill_from_PyObject_{c_type}_{PY_array_arg}",
+        c_helper="fill_from_PyObject_{flat_name}_{PY_array_arg}",
     ),
     dict(
         name="py_ctor_native_*",
         base="base_py_ctor_array",
-        c_helper="get_from_object_{c_type}_{PY_array_arg}",
+        c_helper="get_from_object_{flat_name}_{PY_array_arg}",
     ),
     
     dict(
@@ -4919,7 +4922,7 @@ py_statements = [
 
     dict(
         name="py_descr_native_*_list",
-        setter_helper="get_from_object_{c_type}_list",
+        setter_helper="get_from_object_{flat_name}_list",
         setter=[
             "{PY_typedef_converter} cvalue;",
             "Py_XDECREF({c_var_obj});",
@@ -4932,7 +4935,7 @@ py_statements = [
             "{c_var} = {cast_static}{cast_type}{cast1}cvalue.data{cast2};",
             "{c_var_obj} = cvalue.obj;  // steal reference",
         ],
-        getter_helper="to_PyList_{c_type}",
+        getter_helper="to_PyList_{flat_name}",
         getter=[
             "if ({c_var} == {nullptr}) {{+",
             "Py_RETURN_NONE;",
@@ -4947,7 +4950,7 @@ py_statements = [
     ),
     dict(
         name="py_descr_char_*",
-        setter_helper="get_from_object_{c_type}_list",
+        setter_helper="get_from_object_{flat_name}_list",
         setter=[
             "{PY_typedef_converter} cvalue;",
             "Py_XDECREF({c_var_data});",
@@ -4960,7 +4963,7 @@ py_statements = [
             "{c_var} = {cast_static}{cast_type}{cast1}cvalue.data{cast2};",
             "{c_var_data} = cvalue.dataobj;  // steal reference",
         ],
-#        getter_helper="to_PyList_{c_type}",
+#        getter_helper="to_PyList_{flat_name}",
         getter=[
             "if ({c_var} == {nullptr}) {{+",
             "Py_RETURN_NONE;",
@@ -5008,7 +5011,7 @@ py_statements = [
     dict(
         name="py_descr_native_[]_list",
         need_numpy = True,
-        setter_helper="fill_from_PyObject_{c_type}_{PY_array_arg}",
+        setter_helper="fill_from_PyObject_{flat_name}_{PY_array_arg}",
         setter=[
             "Py_XDECREF({c_var_obj});",
             "{c_var_obj} = {nullptr};",
@@ -5017,7 +5020,7 @@ py_statements = [
             "return -1;",
             "-}}",
         ],
-        getter_helper="to_PyList_{c_type}",
+        getter_helper="to_PyList_{flat_name}",
         getter=[
             "PyObject *rv = {hnamefunc0}({c_var}, {npy_intp_size});",
             "return rv;",
@@ -5026,7 +5029,7 @@ py_statements = [
     dict(
         name="py_descr_native_[]_numpy",
         need_numpy = True,
-        setter_helper="fill_from_PyObject_{c_type}_{PY_array_arg}",
+        setter_helper="fill_from_PyObject_{flat_name}_{PY_array_arg}",
         setter=[
             "Py_XDECREF({c_var_obj});",
             "{c_var_obj} = {nullptr};",
@@ -5049,7 +5052,7 @@ py_statements = [
     dict(
         name="py_descr_native_*_numpy",
         need_numpy = True,
-        setter_helper="get_from_object_{c_type}_numpy",
+        setter_helper="get_from_object_{flat_name}_numpy",
         setter=[
             "{PY_typedef_converter} cvalue;",
             "Py_XDECREF({c_var_obj});",
